@@ -27,6 +27,7 @@ ALLOW = {
     ("optimizer/rules/join_reorder.rs", "if let Some(ndv) = cs.ndv_est {"): (1, COST),
     ("optimizer/rules/join_reorder.rs", "if let Some(v) = cs.ndv_est {"): (1, COST),
     ("optimizer/rules/packed_join_keys.rs", "ndv_est: None,"): (1, PRODUCER),
+    ("distributed/shard.rs", "cs.ndv_est = None;"): (1, PRODUCER),            # a shard's slice of a table drops the estimate (fix for C09)
     ("physical/operators/scan.rs", "/// SAMPLED maximum for float columns; see `min_f64`."): (1, PRODUCER),
     ("physical/operators/scan.rs", "/// `ndv_est` is an estimated number of distinct values. For integer columns it"): (1, PRODUCER),
     ("physical/operators/scan.rs", "/// only; see `min_f64`."): (1, PRODUCER),
@@ -65,6 +66,8 @@ def audit_sites():
             except OSError:
                 continue
             for i, l in enumerate(lines):
+                if l.strip().startswith("//"):
+                    continue        # a comment cannot decide an answer; only code sites are audited
                 if PAT.search(l):
                     seen.setdefault((rel, l.strip()), []).append(i + 1)
     new, decision, counts = [], [], {}
